@@ -272,7 +272,7 @@ func (c *Ctx) ruleLocalWritesMonotone(id string, d *dstate) {
 					for top.Parent() != nil {
 						top = top.Parent()
 					}
-					if !c.callsTransitively(top, 1, func(cl *core.Call) bool { return cl.Is(d.isOutdated) }) {
+					if !c.callsTransitively(top, 4, func(cl *core.Call) bool { return cl.Is(d.isOutdated) }) {
 						unguarded = c.whereI(in)
 					}
 				}
